@@ -240,7 +240,11 @@ def run(ctx):
         for ref in (False, True):
             conds.append(xh.Cond(f"bill_of_materials two_files={two} licenseref={ref}", "C18.py", "_bom", {"two": two, "with_ref": ref}, timeout=tmo, twin="_bom_reach"))
 
+    conds.append(xh.Cond("FileChecksum: the chunked read hashes exactly the file's bytes (sizes around the 8192-byte chunk)", "C18.py", "_sha", {}, timeout=tmo, twin="_sha_reach"))
+
     def confirm(c, ex):
+        if c.func == "_sha":
+            return f"sha1:size{ex['size']}", f"_checksum of a {ex['size']}-byte file is {ex['got']}, its SHA-1 is {ex['sha1']}", {"harness": "C18.py::_sha", "explain": ex}
         return f"bom:{ex['story'][:50]}", f"{ex['story']} for names={ex['names']} copyright={ex['copyright']!r} person={ex['person']!r}", {"harness": "C18.py::_bom", "explain": {k: v for k, v in ex.items() if k != "document"}}
 
     xh.settle(ctx, conds, confirm)
@@ -254,7 +258,7 @@ def run(ctx):
     }
     ctx.stubs = ["uuid4 and datetime.now fixed", "Path(...).open() of the LicenseRef text replaced by an in-memory text", "project.reuse_info_of returns the chosen expressions"]
     ctx.outside = [
-        "SHA-1 / MD5 themselves (hash loops are not a solver target; 'true SHA-1' is hashlib's contract plus a chunked read)",
+        "SHA-1 / MD5 themselves (hashlib's contract); the chunked read around them IS checked, on 12 file sizes around the chunk boundaries chosen by the solver",
         "which files are covered (C03) and what is attributed to them (C02/C04)",
         "the full SPDX tag-value grammar; file names containing line breaks or '<text>'",
         "symbolic characters in names: the writer's StringIO on symbolic strings exceeded every path budget (measured), so names are chosen from a list",
